@@ -20,26 +20,36 @@ theorem andThen_some' (s : Tcb) (r : ProcessSegmentResult) (f : Tcb → Tcb.B) :
     falls through -/
 theorem ackBlock_synSent (t v : Tcb) (seg : Hdr) (r1 : Option ProcessSegmentResult) (hs : t.state = .SynSent)
     (h : Tcb.ackBlock t seg = .ok (v, r1)) :
-    v.state = .SynSent ∧ (v.snd = t.snd ∨ (r1 = none ∧ seg.ctl.syn = true)) := by
+    v.state = .SynSent ∧ (v.snd = t.snd ∨ (r1 = none ∧ seg.ctl.syn = true ∧ seg.ctl.ack = true)) := by
   unfold Tcb.ackBlock at h
   split at h
   · cases h; exact ⟨hs, Or.inl rfl⟩
-  · rw [hs] at h
+  · rename_i hack
+    have ha : seg.ctl.ack = true := by simpa using hack
+    rw [hs] at h
     simp only [Tcb.enqueueThen_eq] at h
     repeat' (split at h)
     all_goals first
       | (cases h; exact ⟨hs, Or.inl rfl⟩)
       | (cases h; exact ⟨(Tcb.enqueueBuilt_frame _ _).2.2.2.2.1.trans hs, Or.inl (Tcb.enqueueBuilt_frame _ _).2.2.1⟩)
-      | (cases h; rename_i hsyn; exact ⟨rfl, Or.inr ⟨rfl, hsyn⟩⟩)
+      | (cases h; rename_i hsyn; exact ⟨rfl, Or.inr ⟨rfl, hsyn, ha⟩⟩)
 
+/-- block 3 in SYN-SENT: a RST without ACK is dropped (RFC 9293 3.10.7.3), one with ACK deletes
+    the TCB -/
 theorem rstBlock_synSent (v w : Tcb) (seg : Hdr) (r : Option ProcessSegmentResult) (hs : v.state = .SynSent)
-    (h : Tcb.rstBlock v seg = .ok (w, r)) : w = v ∧ (r = none ∨ ∃ r0, r = some r0 ∧ r0.shouldDeleteTcb = true) := by
+    (h : Tcb.rstBlock v seg = .ok (w, r)) :
+    w = v ∧ (r = none ∨ (r = some .DiscardSegment ∧ seg.ctl.ack = false) ∨
+      ∃ r0, r = some r0 ∧ r0.shouldDeleteTcb = true) := by
   unfold Tcb.rstBlock at h
   split at h
   · cases h; exact ⟨rfl, Or.inl rfl⟩
   · rw [hs] at h
     dsimp only at h
-    split at h <;> (cases h; exact ⟨rfl, Or.inr ⟨_, rfl, rfl⟩⟩)
+    split at h
+    · rename_i hna
+      cases h
+      exact ⟨rfl, Or.inr (Or.inl ⟨rfl, by simpa using hna⟩)⟩
+    · split at h <;> (cases h; exact ⟨rfl, Or.inr (Or.inr ⟨_, rfl, rfl⟩)⟩)
 
 theorem synBlock_synSent (v w : Tcb) (seg : Hdr) (r : Option ProcessSegmentResult) (hs : v.state = .SynSent)
     (h : Tcb.synBlock v seg = .ok (w, r)) :
@@ -88,7 +98,7 @@ theorem processSegment_synSent (t u : Tcb) (seg : Segment) (r : ProcessSegmentRe
         rw [hr] at h
         obtain ⟨hw, hr2⟩ := rstBlock_synSent v w seg.hdr r2 hv hr
         subst hw
-        rcases hr2 with e | ⟨r0, e, hdel⟩
+        rcases hr2 with e | ⟨e, hna⟩ | ⟨r0, e, hdel⟩
         · subst e
           rw [andThen_none'] at h
           cases hsy : Tcb.synBlock w seg.hdr with
@@ -100,7 +110,7 @@ theorem processSegment_synSent (t u : Tcb) (seg : Segment) (r : ProcessSegmentRe
             · subst hx hr3
               simp only [andThen_some', finish] at h
               cases h
-              rcases hcase with e | ⟨_, e⟩
+              rcases hcase with e | ⟨_, e, _⟩
               · exact e
               · rw [hsyn] at e; cases e
             · -- the state left SYN-SENT and never comes back
@@ -121,6 +131,13 @@ theorem processSegment_synSent (t u : Tcb) (seg : Segment) (r : ProcessSegmentRe
                     exact trk_andThen x _ _ (fun v r h => trk_textBlock x v _ _ _ r h)
                       (fun v w r h => trk_finBlock v w _ _ r h) _ _ heq
               exact hx (trk.synsent hu)
+        · -- a RST without ACK is dropped; block 2 did nothing either (no ACK bit)
+          subst e
+          simp only [andThen_some', finish] at h
+          cases h
+          rcases hcase with e | ⟨_, _, e⟩
+          · exact e
+          · rw [hna] at e; cases e
         · subst e
           simp only [andThen_some', finish] at h
           cases h
@@ -256,14 +273,31 @@ theorem freshKeep_advanceTime (t u : Tcb) (dt : Nat) (r : AdvanceTimeResult) (h 
       | (cases h; done)
       | (cases h; exact FreshKeep.of_eq rfl rfl rfl)
 
+theorem queueFin_state (s u : Tcb) (h : s.queueFin = .ok u) : u.state = s.state := by
+  rw [queueFin_eq] at h
+  split at h
+  · cases h; exact (Tcb.enqueueBuilt_frame _ _).2.2.2.2.1
+  · cases h; rfl
+
+theorem finIfPending_state (b : Bool) (s u : Tcb) (h : Tcb.finIfPending b s = .ok u) : u.state = s.state := by
+  unfold Tcb.finIfPending at h
+  split at h
+  · exact queueFin_state _ _ h
+  · cases h; rfl
+
 theorem freshKeep_close (t u : Tcb) (r : CloseResult) (h : t.close = .ok (u, r)) : FreshKeep t u := by
   intro hu
   unfold Tcb.close at h
-  simp only [Tcb.enqueue_eq] at h
-  repeat' (split at h)
+  split at h
   all_goals first
-    | (cases h; cases hu)
     | (cases h; exact ⟨hu, rfl, rfl⟩)
+    | (split at h
+       · cases h
+       · rename_i hq
+         cases h
+         have := queueFin_state _ _ hq
+         rw [hu] at this
+         cases this)
 
 theorem freshKeep_abort (t u : Tcb) (h : t.abort = .ok u) : FreshKeep t u := by
   intro hu
@@ -299,13 +333,26 @@ theorem freshKeep_segments (t u : Tcb) (segs : List Segment) (hF : SynSentFresh 
   | error e => rw [hv] at h; cases h
   | ok v =>
     rw [hv] at h
+    dsimp only at h
+    cases hf : Tcb.finIfPending t.finPending v with
+    | error e => rw [hf] at h; cases h
+    | ok v2 =>
+    rw [hf] at h
     cases h
-    have hus : ∀ b, (markSent v b).state = v.state ∧ (markSent v b).snd = v.snd ∧
-        (markSent v b).incoming = v.incoming := by
+    have hus : ∀ b, (markSent v2 b).state = v2.state ∧ (markSent v2 b).snd = v2.snd ∧
+        (markSent v2 b).incoming = v2.incoming := by
       intro b; unfold markSent; dsimp only; cases b <;> exact ⟨rfl, rfl, rfl⟩
     rw [(hus _).1] at hu
     obtain ⟨hvs, hvi⟩ := segmentizeIfOpen_state _ _ hv
-    have hts : t.state = .SynSent := by rw [← hu, hvs]; rfl
+    have hts : t.state = .SynSent := by rw [← hu, finIfPending_state _ _ _ hf, hvs]; rfl
+    -- in SYN-SENT no FIN is pending
+    have hfp : t.finPending = false := by unfold Tcb.finPending; rw [hts]; rfl
+    rw [hfp] at hf
+    have hv2 : v2 = v := by
+      unfold Tcb.finIfPending at hf
+      rw [if_neg Bool.false_ne_true] at hf
+      cases hf; rfl
+    subst hv2
     obtain ⟨_, _, hw⟩ := hF hts
     refine ⟨hts, ?_, ?_⟩
     · rw [(hus _).2.1]
